@@ -62,6 +62,20 @@ CLAIMED = {
         "Trusted: Coq kernel; the translators' over-approximation (name-based call resolution; validated dynamically, not proved); "
         "standard-library effects beyond the audited primitives; no concurrent processes.",
         "DESIGN.md section 5 C18"),
+    "C09": (
+        "Coq non-interference theorem (induction over histories) + instance check_flows by vm_compute on state-cell summaries "
+        "regenerated from the package; history differential against fresh interpreters",
+        "Machine-checked proof that for any semantics respecting a summary accepted by the executable checker check_flows (no "
+        "process-lifetime cell that may flow into a result is written by any operation) every history of operations, of any length and "
+        "interleaving, yields step by step exactly the results of fresh processes; instance by computation on the cells (memo caches = "
+        "decorated functions, module-level mutables, class-level attributes, mutable default arguments, function attributes, os.environ) "
+        "and per-operation read/write/flow sets that a translator regenerates from torrentfile/*.py on every run.  PARTIAL: the theorem "
+        "shows no hidden channel among the channels the translator can see; the search runs random and aimed histories (create / file "
+        "add, delete, grow, shrink, rewrite / edit / recheck / rebuild / magnet / info) in one interpreter against a fresh interpreter "
+        "per step on the same filesystem state.",
+        "Trusted: Coq kernel; soundness of the syntactic read/write/flow extraction (the weakest link; not proved); stdout/stderr rebinding "
+        "and logging declared benign; Python offers other channels (monkey-patching, sys.modules) that only the differential looks for.",
+        "DESIGN.md section 5 C09"),
 }
 
 PENDING_REASON = "check not built yet (work in progress; see DESIGN.md section 9)"
